@@ -576,6 +576,21 @@ func (lc *loopCtx) classify(loop ast.Stmt) loopVerdict {
 		if passes {
 			return loopVerdict{Form: "LP-while", OK: true, Detail: fmt.Sprintf("every path through the body steps %s towards the invariant bound %s", exprStr(xe), exprStr(ne))}
 		}
+		if _, isField := ast.Unparen(xe).(*ast.SelectorExpr); isField {
+			// a field may be stepped inside a method called from the body: not visible here
+			calls := false
+			inspectNoLit(s.Body, func(x ast.Node) bool {
+				if call, ok := x.(*ast.CallExpr); ok {
+					if cf := calleeOf(info, call); cf != nil && lc.c.declOf(cf) != nil {
+						calls = true
+					}
+				}
+				return true
+			})
+			if calls {
+				return loopVerdict{Form: "LP-while", Undec: true, Detail: fmt.Sprintf("the tested field %s is not stepped in the loop body itself; methods called from the body may step it", exprStr(xe))}
+			}
+		}
 		return loopVerdict{Form: "LP-while", Detail: fmt.Sprintf("a path through the body (for example an inner loop that runs zero times) returns to the loop head without stepping %s: the loop does not terminate", exprStr(xe))}
 	}
 	return loopVerdict{Form: "?", Undec: true, Detail: "unknown loop statement"}
